@@ -97,7 +97,7 @@ def rich_config(base: Any) -> Any:
     """The base config extended by options of gallia's special field types, as real commands declare them
     (hex bytes, enum by name or value, ranges, hex int)."""
     if base not in _RICH:
-        from gallia.command.config import AutoInt, EnumArg, Field, HexBytes, HexInt, Ranges
+        from gallia.command.config import AutoInt, EnumArg, Field, HexBytes, HexInt, Ranges, Ranges2D
         from gallia.services.uds.core.constants import UDSIsoServices
 
         class Rich(base):  # type: ignore[misc,valid-type]
@@ -106,6 +106,7 @@ def rich_config(base: Any) -> Any:
             ids: Ranges = Field([1, 2, 3], description="ids")
             mask: HexInt = Field(0xFF, description="mask")
             count: AutoInt = Field(7, description="count")
+            skip: Ranges2D = Field({2: None, 3: [0x27]}, description="skip")  # an outer key without inner values means "all of it"
 
         _RICH[base] = Rich
     return _RICH[base]
